@@ -16,6 +16,10 @@
        PS a:b ...  ;  RT n/d ...  ;  DN n/d ...     (three lines)
        Y n/d ...           (N lines of dim entries)
        -> N lines "ROW n/d ..."
+     FA maxiter N D d                 factor analysis with fa_epsilon = 0 on exact rationals; the inverse oracle is
+       A n/d ...           (D lines of d entries: initial loading)     an exact Gauss-Jordan elimination whose
+       X n/d ...           (N lines of D entries: samples)             contract M * R = I is re-checked on every call
+       -> N lines "ROW n/d ..." and "ORACLE calls c bad b singular s"
    every block's answer ends with "END" *)
 open C19_model
 
@@ -137,6 +141,22 @@ let () =
         let rows = spe_step_qc (nat_of_int (int_of_string dim)) (nat_of_int n) (qc_of_string lam)
             (qc_of_string tol) ps rt dn y in
         List.iter (fun r -> print_string ("ROW " ^ String.concat " " (List.map string_of_qc r) ^ "\n")) rows;
+        print_string "END\n"
+      | "FA" :: [maxiter; n; dd; d] ->
+        let n = int_of_string n and dd = int_of_string dd in
+        let a0 = List.init dd (fun _ -> List.map qc_of_string (expect "A")) in
+        let x = List.init n (fun _ -> List.map qc_of_string (expect "X")) in
+        let calls = ref 0 and bad = ref 0 and singular = ref 0 in
+        let zero = qc_of Z0 XH in
+        let inv m mat =
+          incr calls;
+          match qc_inverse_opt m mat with
+          | Some r -> if not (inv_contract_b m mat r) then incr bad; r
+          | None -> incr singular; (fun _ _ -> zero) in
+        let rows = fa_embed_qc inv (nat_of_int (int_of_string maxiter)) (nat_of_int n) (nat_of_int dd)
+            (nat_of_int (int_of_string d)) a0 x in
+        List.iter (fun r -> print_string ("ROW " ^ String.concat " " (List.map string_of_qc r) ^ "\n")) rows;
+        Printf.printf "ORACLE calls %d bad %d singular %d\n" !calls !bad !singular;
         print_string "END\n"
       | _ -> print_string "BADCMD\nEND\n"
     done
